@@ -13,11 +13,8 @@ def mpvPrimaries (m : MC) (w h : Nat) : CP :=
   else .BT709
 
 /-- the model's guess functions (thresholds taken from the source by the translator) are the mpv table, for ALL sizes -/
-theorem guess_is_mpv (w h : Nat) (m : MC) : guessMatrix w h = mpvMatrix w h ∧ guessPrimaries m w h = mpvPrimaries m w h := by
-  constructor
-  · simp only [guessMatrix, mpvMatrix, C.guess_matrix_coefficients_i0, C.guess_matrix_coefficients_i1, C.guess_matrix_coefficients_i2]
-  · simp only [guessPrimaries, mpvPrimaries, C.guess_color_primaries_i0, C.guess_color_primaries_i1, C.guess_color_primaries_i2,
-      C.guess_color_primaries_i3, C.guess_color_primaries_i4]
+theorem guess_is_mpv (w h : Nat) (m : MC) : guessMatrix w h = mpvMatrix w h ∧ guessPrimaries m w h = mpvPrimaries m w h :=
+  ⟨rfl, rfl⟩
 
 /-- the resolved config as the statement describes it -/
 def resolved (c : Cfg) (w h : Nat) : Cfg :=
@@ -26,8 +23,7 @@ def resolved (c : Cfg) (w h : Nat) : Cfg :=
            primaries := if c.primaries = .Unspecified then mpvPrimaries m w h else c.primaries,
            transfer := if c.transfer = .Unspecified then .BT1886 else c.transfer }
 
-theorem fix_is_resolved (c : Cfg) (w h : Nat) : c.fixUnspecified w h = resolved c w h := by
-  simp only [Cfg.fixUnspecified, resolved, (guess_is_mpv w h _).1, (guess_is_mpv w h _).2]
+theorem fix_is_resolved (c : Cfg) (w h : Nat) : c.fixUnspecified w h = resolved c w h := rfl
 
 theorem mpvMatrix_specified (w h : Nat) : mpvMatrix w h ≠ .Unspecified := by
   unfold mpvMatrix; split <;> (try split) <;> simp
@@ -66,12 +62,10 @@ theorem fix_other_fields (c : Cfg) (w h : Nat) :
 theorem yuvNew_config (y u v : Plane) (cfg : Cfg) (ts : Nat) (g : Yuv) (hg : Yuv.new y u v cfg ts = .ok (.ok g)) :
     g.cfg = cfg.fixUnspecified y.cfg.width y.cfg.height ∧ g.y = y ∧ g.u = u ∧ g.v = v := by
   unfold Yuv.new at hg
+  dsimp only at hg
   repeat' split at hg
-  all_goals first
-    | (injection hg with hg; injection hg with hg; subst hg; exact ⟨rfl, rfl, rfl, rfl⟩)
-    | (exfalso; injection hg with hg; injection hg)
-    | (exfalso; injection hg)
-    | (exfalso; exact Out.noConfusion hg)
+  all_goals (first | (simp at hg; done) | skip)
+  all_goals (simp at hg; subst hg; exact ⟨rfl, rfl, rfl, rfl⟩)
 
 /-- a constructed RGB image resolves Unspecified to sRGB / BT.709 and never reports Unspecified -/
 theorem rgbNew_resolved (d : Array V3) (w h : Nat) (t : TC) (p : CP) (r : Rgb) (hr : Rgb.new d w h t p = .ok r) :
@@ -83,33 +77,31 @@ theorem rgbNew_resolved (d : Array V3) (w h : Nat) (t : TC) (p : CP) (r : Rgb) (
     refine ⟨rfl, rfl, ?_, ?_⟩ <;> (simp only; split <;> simp_all)
   · injection hr
 
+theorem ypbpr_config (inp : Array V3) (w h : Nat) (cfg : Cfg) (ts : Nat) (y : Yuv) (hy : ypbprToYcbcr inp w h cfg ts = .ok y) :
+    y.cfg = cfg.fixUnspecified y.y.cfg.width y.y.cfg.height := by
+  unfold ypbprToYcbcr at hy
+  dsimp only at hy
+  repeat' split at hy
+  all_goals (first | (simp at hy; done) | skip)
+  rename_i st _ g hg
+  simp at hy; subst hy
+  have := yuvNew_config _ _ _ _ _ _ hg
+  rw [this.1, this.2.1]
+
 /-- `rgb_to_yuv` stores the resolution of the requested config for the image's own dimensions -/
 theorem rgbToYuv_config (B : Build) (rgb : Rgb) (cfg : Cfg) (ts : Nat) (y : Yuv) (h : rgbToYuv B rgb cfg ts = .ok (.ok y)) :
     y.cfg = cfg.fixUnspecified y.y.cfg.width y.y.cfg.height := by
   unfold rgbToYuv at h
   split at h
-  · injection h with h; injection h
+  · simp at h
   · rename_i t _
     cases hy : ypbprToYcbcr (Array.map (M3.mulArr B.fma t) rgb.data) rgb.w rgb.h cfg ts with
     | ub s => simp [hy, Out.bind] at h
     | panic s => simp [hy, Out.bind] at h
     | ok y' =>
-      simp only [hy, Out.bind] at h
-      injection h with h; injection h with h; subst h
-      unfold ypbprToYcbcr at hy
-      split at hy
-      · exact Out.noConfusion hy
-      · split at hy
-        · exact Out.noConfusion hy
-        · exact Out.noConfusion hy
-        · rename_i st _
-          split at hy
-          · rename_i g hg
-            injection hy with hy; subst hy
-            exact (yuvNew_config _ _ _ _ _ _ hg).1.trans (by rw [(yuvNew_config _ _ _ _ _ _ hg).2.1])
-          · exact Out.noConfusion hy
-          · exact Out.noConfusion hy
-          · exact Out.noConfusion hy
+      simp [hy, Out.bind] at h
+      subst h
+      exact ypbpr_config _ _ _ _ _ _ hy
 
 /-- Labels match content (the D4 repair): when `Yuv::try_from((LinearRgb, cfg))` succeeds, the transfer and primaries
 that were *applied* (the arguments of the linear->gamma stage) are exactly the ones stored in the output config, and the
